@@ -3,8 +3,8 @@ CONSTANTS
   MaxTasks = 4
   MaxEpoch = 2
   MaxOps = 7
-  Dev = {}
+  Dev = {"late-closes-new"}
 INIT Init
 NEXT Next
 VIEW view
-INVARIANTS NoCrash OurIdsAreOurs OpenHasTask NoStolenStream EmitInv
+INVARIANTS NoStolenStream
